@@ -13,6 +13,10 @@ was copied, which text was written or appended):
                     character mutations on top; a third of the cases wired like
                     compareProjects: ContentComparer(quiet) + Observer(quiet), quiet 0..4
   MERGE-files       add() / remove() / unknown file types
+  MERGE-project     compareProjects on generated TOML projects with a merge stage: a clean file, a
+                    file with missing keys, files with error entities / junk, missing localized
+                    files (mergeable, skip-only, copy-only / unknown), unknown-type and obsolete
+                    files; every staged path against its expectation by construction
   MERGE-inc-sequence 2-4 consecutive .inc comparisons in this process where an earlier file
                     leaves `#filter emptyLines` switched on; each pair's expected staging is
                     computed from its own two texts by a line based reader written here
@@ -514,6 +518,7 @@ class Env:
             def merge(self, ref_entities, ref_file, l10n_file, merge_file, missing, skips,
                       ctx, capabilities, encoding):
                 env.calls.append({
+                    "trace_start": len(env.trace),
                     "ref_entities": ref_entities, "ref_file": ref_file, "l10n_file": l10n_file,
                     "merge_file": merge_file, "missing": list(missing), "skips": list(skips),
                     "contents": getattr(ctx, "contents", None), "caps": capabilities,
@@ -1162,6 +1167,239 @@ def suite_files(chk, env, model, n):
         chk.correspond("MERGE-files", cases, impls, model.call(reqs))
 
 
+# ------------------------------------------------------- whole projects ----
+def tree_snapshot(root, skip):
+    out = []
+    for d, dirs, files in os.walk(root):
+        if d == root and skip in dirs:
+            dirs.remove(skip)
+        dirs.sort()
+        for f in sorted(files):
+            q = os.path.join(d, f)
+            out.append((os.path.relpath(q, root), hashlib.sha1(open(q, "rb").read()).hexdigest()))
+    return out
+
+
+def gen_project(rng):
+    """-> list of file descriptions: dict(rel, fmt, ref (bytes or None), l10n (bytes or None),
+    kind, expect (by construction, for compared files))"""
+    files = []
+    used_names = set()
+
+    def relname(fmt, i):
+        base = {"android": "strings.xml"}.get(fmt, "f%d%s" % (i, os.path.splitext(FILE[fmt])[1]))
+        sub = rng.choice(["", "sub/", "a/b/"])
+        rel = sub + base
+        while rel in used_names:
+            sub += "x/"
+            rel = sub + base
+        used_names.add(rel)
+        return rel
+
+    def pair(fmt, kind):
+        recs, used = gen_reference(rng, fmt)
+        ref = render(rng, fmt, [("rec", r_, "same") for r_ in recs]).encode("utf-8")
+        if kind == "clean":
+            items = [("rec", dict(r_, comment=None, val=(r_["val"] if fmt != "po" else words(rng, 1, 2)),
+                                  attrs=list(r_["attrs"])), "same") for r_ in recs]
+        elif kind == "missing":
+            items = [("rec", dict(r_, comment=None, attrs=list(r_["attrs"])), "same")
+                     for r_ in recs[1:]]
+            if fmt == "po":
+                for it in items:
+                    it[1]["val"] = words(rng, 1, 2)
+        else:  # general: drop / re-value / check-breaking values / obsolete / junk
+            items = gen_l10n(rng, fmt, recs, used, allow_bad=fmt != "android", allow_junk=fmt != "android")
+        text = render(rng, fmt, items)
+        return ref, text.encode("utf-8"), expected_by_construction(fmt, recs, items)
+
+    kinds = [("clean", rng.choice(["properties", "dtd", "ini", "ftl", "po"])),
+             ("missing", rng.choice(MERGEABLE)),
+             ("general", rng.choice(["properties", "dtd", "ftl"])),
+             ("general", rng.choice(["properties", "dtd", "ini", "ftl", "po", "inc", "android"])),
+             ("nofile", rng.choice(MERGEABLE)),
+             ("nofile", rng.choice(["ftl", "po", "android"])),
+             ("nofile", rng.choice(["inc", "txt"])),
+             ("unknown", "txt"), ("obsolete", rng.choice(["properties", "ftl", "txt"]))]
+    rng.shuffle(kinds)
+    for i, (kind, fmt) in enumerate(kinds):
+        if fmt == "android" and any(f["fmt"] == "android" for f in files):
+            fmt = "ftl"
+        d = {"rel": relname(fmt, i), "fmt": fmt, "kind": kind, "expect": None}
+        if kind in ("clean", "missing", "general"):
+            d["ref"], d["l10n"], d["expect"] = pair(fmt, kind)
+        elif kind == "nofile":
+            if fmt == "txt":
+                d["ref"] = words(rng, 1, 4).encode("utf-8")
+            else:
+                recs, used = gen_reference(rng, fmt)
+                d["ref"] = render(rng, fmt, [("rec", r_, "same") for r_ in recs]).encode("utf-8")
+            d["l10n"] = None
+        elif kind == "unknown":
+            if rng.random() < 0.5:
+                f2, nm = rng.choice(LOOKALIKE)
+                d["rel"] = "u%d/" % i + nm
+                recs, used = gen_reference(rng, f2)
+                d["ref"] = render(rng, f2, [("rec", r_, "same") for r_ in recs]).encode("utf-8")
+                d["l10n"] = render(rng, f2, gen_l10n(rng, f2, recs, used)).encode("utf-8")
+            else:
+                d["ref"] = words(rng, 1, 4).encode("utf-8")
+                d["l10n"] = bytes(rng.randrange(256) for _ in range(rng.randint(0, 10)))
+        else:  # obsolete: no reference file
+            d["ref"] = None
+            d["l10n"] = words(rng, 0, 4).encode("utf-8") if fmt == "txt" else \
+                render(rng, fmt, [("rec", r_, "same") for r_ in gen_reference(rng, fmt)[0]]).encode("utf-8")
+        files.append(d)
+    return files
+
+
+def expected_staging(env, d):
+    """-> (what, bytes or None): the staged content of one project file by construction where it
+    is a copy, else ('merged', None) for the per-key oracle"""
+    fmt, kind = d["fmt"], d["kind"]
+    if kind == "nofile":
+        return ("reference", d["ref"]) if fmt in TOLERATES_ENGLISH else ("nothing", None)
+    if kind in ("unknown", "obsolete"):
+        return ("localization", d["l10n"])
+    ex = d["expect"]
+    if fmt == "inc":
+        return ("localization", d["l10n"]) if ex["clean"] else ("reference", d["ref"])
+    if not ex["bad"] and not ex["junk"] and (ex["clean"] or fmt in SKIPONLY):
+        return ("localization", d["l10n"])
+    return ("merged", None)
+
+
+def run_project(chk, env, files, model_rows):
+    """compareProjects on a generated TOML project with a merge stage; every staged path is
+    checked against its expectation by construction"""
+    from compare_locales.compare import compareProjects
+    import compare_locales.compare as compare_pkg
+    from compare_locales.paths import TOMLParser
+    from compare_locales import mozpath
+    root = tempfile.mkdtemp(prefix="verif_c04_proj_")
+    assert not root.startswith(("/repo", "/verif"))
+    case = {"format": "project", "op": "project", "stream": "project",
+            "files": [{"rel": d["rel"], "fmt": d["fmt"], "kind": d["kind"],
+                       "ref": None if d["ref"] is None else d["ref"].hex(),
+                       "l10n": None if d["l10n"] is None else d["l10n"].hex(),
+                       "expect": d["expect"]} for d in files]}
+    fails = []
+    try:
+        with open(os.path.join(root, "l10n.toml"), "w") as f:
+            f.write('basepath = "."\nlocales = ["xx"]\n[[paths]]\n  reference = "en/app/**"\n'
+                    '  l10n = "{l10n_base}/{locale}/app/**"\n')
+        for d in files:
+            for side, data in (("en", d["ref"]), ("l10n/xx", d["l10n"])):
+                if data is not None:
+                    q = os.path.join(root, side, "app", d["rel"])
+                    os.makedirs(os.path.dirname(q), exist_ok=True)
+                    write(q, data)
+        os.makedirs(os.path.join(root, "l10n", "xx", "app"), exist_ok=True)
+        base = mozpath.abspath(os.path.join(root, "l10n"))
+        stage = mozpath.abspath(os.path.join(root, "stage"))
+        before = tree_snapshot(root, "stage")
+        env.trace, env.calls = [], []
+        saved = compare_pkg.ContentComparer
+        compare_pkg.ContentComparer = env.Recording
+        exc = None
+        try:
+            configs = [TOMLParser().parse(os.path.join(root, "l10n.toml"), env={"l10n_base": base})]
+            with quiet():
+                try:
+                    rv = compareProjects(configs, ["xx"], base, merge_stage=stage)
+                    if rv is None:
+                        fails.append(("compareProjects-returned-nothing", None))
+                except Exception as e:  # noqa
+                    exc = type(e).__name__
+        finally:
+            compare_pkg.ContentComparer = saved
+        if exc:
+            fails.append(("compareProjects-raised", exc))
+        if tree_snapshot(root, "stage") != before:
+            fails.append(("inputs-or-outside-modified", None))
+        staged = {}
+        for dd, _, fs in os.walk(stage):
+            for fn in fs:
+                q = os.path.join(dd, fn)
+                staged[os.path.relpath(q, os.path.join(stage, "xx", "app"))] = open(q, "rb").read()
+        want_paths = set()
+        for d in files:
+            what, data = expected_staging(env, d)
+            got = staged.get(d["rel"])
+            if what != "nothing":
+                want_paths.add(d["rel"])
+            if what == "nothing":
+                if got is not None:
+                    fails.append(("staged-although-format-does-not-tolerate-english",
+                                  {"file": d["rel"], "staged": repr(got)}))
+            elif what in ("reference", "localization"):
+                if got != data:
+                    fails.append(("project-file-not-staged-as-copy-of-" + what,
+                                  {"file": d["rel"], "kind": d["kind"], "staged": repr(got)}))
+            else:
+                if got is None:
+                    fails.append(("project-file-not-staged", {"file": d["rel"], "kind": d["kind"]}))
+                    continue
+                # the per-key outcome by construction, and the second comparison
+                name = os.path.basename(d["rel"])
+                sp = os.path.join(stage, "xx", "app", d["rel"])
+                rp = os.path.join(root, "en", "app", d["rel"])
+                try:
+                    mkeys, mtexts, mvals, mjunk = parse_file(name, sp)
+                    vals = {kenc_s(k): v for k, v in mvals.items() if k != ("", None)}
+                    if vals != d["expect"]["values"] or mjunk or len(mkeys) != len(set(mkeys)):
+                        fails.append(("project-staged-values-differ-from-construction",
+                                      {"file": d["rel"], "staged": vals, "expected": d["expect"]["values"],
+                                       "junk": mjunk}))
+                    from compare_locales.paths import File
+                    cc = env.content.ContentComparer()
+                    col = Collector()
+                    cc.observers.append(col)
+                    with quiet():
+                        cc.compare(File(rp, name), File(sp, name, locale="xx"), None)
+                    if col.errors() or (d["fmt"] in MERGEABLE and col.missing()):
+                        fails.append(("recompare-reports-errors", {"file": d["rel"], "errors": col.errors()[:3],
+                                                                   "missing": [repr(k) for k in col.missing()[:3]]}))
+                except Exception as e:  # noqa
+                    fails.append(("recompare-raised", type(e).__name__))
+        extra = sorted(set(staged) - want_paths)
+        if extra:
+            fails.append(("wrote-outside-expected-merge-paths", extra))
+        # the merge() calls, for the model
+        calls = env.calls
+        for i, call in enumerate(calls):
+            end = calls[i + 1]["trace_start"] if i + 1 < len(calls) else len(env.trace)
+            tr = env.trace[call["trace_start"]:end]
+            action, problem = action_of(tr, call["ref_file"].fullpath, call["l10n_file"].fullpath,
+                                        call["merge_file"])
+            impl = common.ok(action) if action is not None else [2, s2l(problem)]
+            if problem:
+                fails.append(("unexpected-file-effects", problem))
+            model_rows.append((dict(case, call=i), impl, (0, call_payload(call, [0, call["caps"]]))))
+        for sig, detail in fails:
+            chk.fail(sig, case, detail)
+    finally:
+        real_shutil.rmtree(root, ignore_errors=True)
+    return fails
+
+
+def suite_project(chk, env, model, n):
+    rng = chk.rng
+    rows = []
+    for i in range(n):
+        files = gen_project(rng)
+        chk.count(("project", json.dumps([(d["rel"], d["kind"], d["fmt"],
+                                           None if d["l10n"] is None else d["l10n"].hex()) for d in files])))
+        for d in files:
+            chk.hist("project_files", d["kind"] + ":" + d["fmt"])
+        run_project(chk, env, files, rows)
+        if i == 0:
+            chk.sample({"suite": "MERGE-project", "files": [(d["rel"], d["kind"], d["fmt"]) for d in files]})
+    if model and rows:
+        outs = model.call([r_[2] for r_ in rows])
+        chk.correspond("MERGE-project", [r_[0] for r_ in rows], [r_[1] for r_ in rows], outs)
+
+
 # ---------------------------------------------------- .inc sequences -------
 def inc_reading(text):
     """An independent, line based reading of a defines file (no parser of the package):
@@ -1605,6 +1843,7 @@ def run(chk, runner_ok):
         suite_unknown(chk, env, model, int(total * 0.03))
         suite_files(chk, env, model, int(total * 0.05))
         suite_inc_sequences(chk, env, model, int(total * 0.02))
+        suite_project(chk, env, model, chk.n(40, 300))
         suite_findings(chk, env, model)
     finally:
         env.close()
@@ -1624,6 +1863,16 @@ def replay(chk, path):
             if "format" not in c:
                 impl, action, merged, req, exc = direct_case(env, c)
                 print("direct case", c, "impl", impl)
+                continue
+            if c.get("op") == "project":
+                files = [{"rel": d["rel"], "fmt": d["fmt"], "kind": d["kind"], "expect": d["expect"],
+                          "ref": None if d["ref"] is None else bytes.fromhex(d["ref"]),
+                          "l10n": None if d["l10n"] is None else bytes.fromhex(d["l10n"])} for d in c["files"]]
+                chk2 = common.Check(chk.prop, chk.tier, chk.seed)
+                chk2.known = []
+                fails = run_project(chk2, env, files, [])
+                print("project", [(d["rel"], d["kind"]) for d in files], "oracle", fails)
+                rc |= bool(fails)
                 continue
             if c.get("op") == "sequence":
                 chk2 = common.Check(chk.prop, chk.tier, chk.seed)
